@@ -28,7 +28,7 @@ import sympy as sp
 from ..core import src
 from .. import units as U
 from .. import agree
-from .C07 import Specialiser, walk_guarded, own_exprs, _int_attr, _polarity
+from .C07 import Specialiser, walk_guarded, own_exprs, _int_attr, _polarity, _Sub, clone as _clone
 
 C1 = "SplineInterpolator1D"
 C2 = "SplineInterpolator2D"
@@ -102,33 +102,48 @@ class _Cols:
         return f"[{self.first}, {self.first} + {self.count})" + (f" mod {self.mod}" if self.mod is not None else "")
 
 
-def collocation_fill(chk, cm):
-    """abstract reading of collocation_matrix on a periodic and on a clamped space: names are bound to index sets (ranges, slices, index
-    arrays, closures over the span, shifted / taken modulo) and every store into the matrix is recorded with the index set of its columns and
-    its kind (unbuffered accumulation, assignment, buffered in-place addition).  Nothing is executed."""
-    span, degree, nb, s, nx = sp.symbols("span degree nb s nx", integer=True)
+def collocation_analysis(cm, k_cu):
+    """Abstract reading of collocation_matrix on each kind of space (periodic / clamped x uniform-cubic / general family): branches on the
+    two flags are resolved, local functions are written back at their call sites, names are bound to index sets (ranges, slices, index
+    arrays, closures over the span, shifted / taken modulo) and every store into a matrix is recorded with the index set of its columns,
+    its kind (unbuffered accumulation, assignment, buffered in-place addition), the array it goes to and the loop it sits in.  Column
+    positions are expressed relative to `first`, the index of the first basis function that does not vanish at the point of the row:
+    the general span search returns first + degree, the uniform one first + k_cu (its own convention, established by C07).  Nothing is
+    executed.  -> {(periodic, family): state}"""
+    first, degree, nb, s, nx = sp.symbols("first degree nb s nx", integer=True)
     formals = [a.arg for a in cm.args.args]
     per_name = "periodic" if "periodic" in formals else None
-    fq = f"{C1}.collocation_matrix"
-    # names that hold the span of the row (results of the span search)
-    span_names = set()
+    fam_name = next((f_ for f_ in formals if "uniform" in f_), None)
+    span_fam = {}
     for n in ast.walk(cm):
         if isinstance(n, ast.Assign) and isinstance(n.value, ast.Call) and src(n.value.func) in ("nu_find_span", "cu_find_span"):
+            fam = src(n.value.func)[:2]
             t = n.targets[0]
-            t = t.elts[0] if isinstance(t, ast.Tuple) and src(n.value.func) == "cu_find_span" and t.elts else t
+            t = t.elts[0] if isinstance(t, ast.Tuple) and fam == "cu" and t.elts else t
             if isinstance(t, ast.Name):
-                span_names.add(t.id)
+                span_fam[t.id] = fam
             elif isinstance(t, ast.Subscript) and isinstance(t.value, ast.Name):
-                span_names.add(t.value.id)
-    mat_names = {t.id for n in ast.walk(cm) if isinstance(n, ast.Assign) and isinstance(n.value, ast.Call)
-                 and src(n.value.func) in ("np.zeros", "np.empty") and isinstance(n.value.args[0] if n.value.args else None, ast.Tuple)
-                 and len(n.value.args[0].elts) == 2 and src(n.value.args[0].elts[1]) in ("nb", formals[0] if formals else "nb")
-                 for t in n.targets if isinstance(t, ast.Name)}
+                span_fam[t.value.id] = fam
+    basis_arrays = {src(c.args[-1]).split("[")[0] for c in ast.walk(cm) if isinstance(c, ast.Call) and
+                    src(c.func) in ("nu_basis_funs", "cu_basis_funs") and c.args}
 
     class Unknown(Exception):
         pass
 
-    def ev(e, env, case):
+    class State:
+        def __init__(self):
+            self.fills, self.bufs, self.parts, self.folds, self.returned, self.loops, self.notes = [], {}, {}, [], None, [], []
+
+    def flag_value(test, flags):
+        t, sw = _polarity(test)
+        if src(t) in flags:
+            return flags[src(t)] != sw
+        return None
+
+    def opaque(e):
+        return sp.Symbol("<" + src(e)[:40] + ">", integer=True)
+
+    def ev(e, env, flags):
         """sympy scalar or _Cols; raises Unknown"""
         if isinstance(e, ast.Constant) and isinstance(e.value, int) and not isinstance(e.value, bool):
             return sp.Integer(e.value)
@@ -138,31 +153,34 @@ def collocation_fill(chk, cm):
                 if v is None or isinstance(v, tuple):
                     raise Unknown(e.id)
                 return v
-            if e.id in span_names:
-                return span
+            if e.id in span_fam:
+                if span_fam[e.id] == "cu":
+                    if k_cu is None:
+                        raise Unknown("index convention of cu_find_span")
+                    return first + k_cu
+                return first + degree
             if e.id in ("degree", "nb", "nx"):
                 return {"degree": degree, "nb": nb, "nx": nx}[e.id]
             raise Unknown(e.id)
         if isinstance(e, ast.UnaryOp) and isinstance(e.op, ast.USub):
-            v = ev(e.operand, env, case)
+            v = ev(e.operand, env, flags)
             if isinstance(v, _Cols):
                 raise Unknown(src(e))
             return -v
-        if isinstance(e, ast.IfExp) and per_name and src(_polarity(e.test)[0]) == per_name:
-            take_body = case != _polarity(e.test)[1]
-            return ev(e.body if take_body else e.orelse, env, case)
+        if isinstance(e, ast.IfExp) and flag_value(e.test, flags) is not None:
+            return ev(e.body if flag_value(e.test, flags) else e.orelse, env, flags)
         if isinstance(e, ast.Subscript):
             base = e.value
             items = e.slice.elts if isinstance(e.slice, ast.Tuple) else [e.slice]
             reshaping = all((isinstance(x, ast.Slice) and x.lower is None and x.upper is None and x.step is None) or
                             (isinstance(x, ast.Constant) and x.value is None) or src(x) == "np.newaxis" for x in items)
-            if isinstance(base, ast.Name) and base.id in span_names:
-                return span                   # the span of the row (of every row, broadcast)
+            if isinstance(base, ast.Name) and base.id in span_fam:
+                return ev(base, env, flags)         # the span of the row (of every row, broadcast)
             if reshaping:
-                return ev(base, env, case)
+                return ev(base, env, flags)
             raise Unknown(src(e))
         if isinstance(e, ast.BinOp) and isinstance(e.op, (ast.Add, ast.Sub)):
-            a, b = ev(e.left, env, case), ev(e.right, env, case)
+            a, b = ev(e.left, env, flags), ev(e.right, env, flags)
             if isinstance(a, _Cols) and isinstance(b, _Cols):
                 raise Unknown(src(e))
             if isinstance(a, _Cols) or isinstance(b, _Cols):
@@ -172,170 +190,424 @@ def collocation_fill(chk, cm):
                 return _Cols(c.first + k if isinstance(e.op, ast.Add) else c.first - k, c.count, None)
             return a + b if isinstance(e.op, ast.Add) else a - b
         if isinstance(e, ast.BinOp) and isinstance(e.op, ast.Mult):
-            a, b = ev(e.left, env, case), ev(e.right, env, case)
+            a, b = ev(e.left, env, flags), ev(e.right, env, flags)
             if isinstance(a, _Cols) or isinstance(b, _Cols):
                 raise Unknown(src(e))
             return a * b
         if isinstance(e, ast.BinOp) and isinstance(e.op, ast.Mod):
-            a, m = ev(e.left, env, case), ev(e.right, env, case)
+            a, m = ev(e.left, env, flags), ev(e.right, env, flags)
             if isinstance(m, _Cols):
                 raise Unknown(src(e))
             if isinstance(a, _Cols):
                 if a.mod is not None:
                     raise Unknown(src(e))
                 return _Cols(a.first, a.count, m)
-            raise Unknown(src(e))
+            return opaque(e)                        # a scalar position folded into the period: not followed further
         if isinstance(e, ast.Call):
             f = src(e.func)
             if f in ("np.arange", "range", "slice") and not e.keywords and 1 <= len(e.args) <= 2:
-                vals = [ev(a, env, case) for a in e.args]
+                vals = [ev(a, env, flags) for a in e.args]
                 if any(isinstance(v, _Cols) for v in vals):
                     raise Unknown(src(e))
                 lo, hi = (sp.Integer(0), vals[0]) if len(vals) == 1 else vals
                 return _Cols(lo, hi - lo, None)
             if f in ("np.mod", "np.remainder") and len(e.args) == 2:
-                a, m = ev(e.args[0], env, case), ev(e.args[1], env, case)
+                a, m = ev(e.args[0], env, flags), ev(e.args[1], env, flags)
                 if isinstance(a, _Cols) and a.mod is None and not isinstance(m, _Cols):
                     return _Cols(a.first, a.count, m)
+                if not isinstance(a, _Cols) and not isinstance(m, _Cols):
+                    return opaque(e)
                 raise Unknown(src(e))
+            if f in ("min", "max", "int") and e.args and not e.keywords:
+                for a in e.args:
+                    if isinstance(ev(a, env, flags), _Cols):
+                        raise Unknown(src(e))
+                return opaque(e)
             if f in ("np.array", "np.asarray", "list", "np.atleast_1d") and len(e.args) >= 1:
-                return ev(e.args[0], env, case)
-            if isinstance(e.func, ast.Name) and isinstance(env.get(e.func.id), tuple) and len(e.args) == 1 and not e.keywords:
+                return ev(e.args[0], env, flags)
+            if isinstance(e.func, ast.Name) and isinstance(env.get(e.func.id), tuple) and env[e.func.id][0] == "closure" and \
+                    len(e.args) == 1 and not e.keywords:
                 _k, par, body, cenv, pre = env[e.func.id]
                 inner = dict(cenv)
-                inner[par] = ev(e.args[0], env, case)
+                inner[par] = ev(e.args[0], env, flags)
                 for x in pre:                       # locals of the closure, in order
                     try:
-                        inner[x.targets[0].id] = ev(x.value, inner, case)
+                        inner[x.targets[0].id] = ev(x.value, inner, flags)
                     except Unknown:
                         inner[x.targets[0].id] = None
-                return ev(body, inner, case)
+                return ev(body, inner, flags)
             raise Unknown(src(e))
         if isinstance(e, ast.ListComp) and len(e.generators) == 1 and isinstance(e.generators[0].target, ast.Name) and not e.generators[0].ifs:
             g = e.generators[0]
-            rng = ev(g.iter, env, case)
+            rng = ev(g.iter, env, flags)
             if not isinstance(rng, _Cols) or rng.mod is not None:
                 raise Unknown(src(e))
             inner = dict(env)
             inner[g.target.id] = s
             elt, mod = e.elt, None
             if isinstance(elt, ast.BinOp) and isinstance(elt.op, ast.Mod):
-                mod = ev(elt.right, inner, case)
+                mod = ev(elt.right, inner, flags)
                 elt = elt.left
-            val = ev(elt, inner, case)
+            val = ev(elt, inner, flags)
             if isinstance(val, _Cols) or isinstance(mod, _Cols) or sp.expand(val).coeff(s) != 1:
                 raise Unknown(src(e))
             return _Cols(sp.expand(val).subs(s, rng.first), rng.count, mod)
         raise Unknown(src(e))
 
-    def walk(stmts, env, case, fills):
+    def cols_of(e, env, flags, width):
+        """index set denoted by the column part of a subscript"""
+        if e is None:
+            return None
+        try:
+            if isinstance(e, ast.Slice):
+                if e.step is not None:
+                    return None
+                lo = sp.Integer(0) if e.lower is None else ev(e.lower, env, flags)
+                hi = width if e.upper is None else ev(e.upper, env, flags)
+                if hi is None or isinstance(lo, _Cols) or isinstance(hi, _Cols):
+                    return None
+                return _Cols(lo, hi - lo, None)
+            v = ev(e, env, flags)
+            return v if isinstance(v, _Cols) else None
+        except Unknown:
+            return None
+
+    def full(x):
+        return isinstance(x, ast.Slice) and x.lower is None and x.upper is None and x.step is None
+
+    def target_parts(t):
+        """(buffer name, row part, column part) of a store target `B[r, c]` / `B[r][c]`, or None"""
+        if not isinstance(t, ast.Subscript):
+            return None
+        if isinstance(t.value, ast.Name):
+            if isinstance(t.slice, ast.Tuple) and len(t.slice.elts) == 2:
+                return t.value.id, t.slice.elts[0], t.slice.elts[1]
+            return t.value.id, t.slice, None
+        if isinstance(t.value, ast.Subscript) and isinstance(t.value.value, ast.Name) and not isinstance(t.value.slice, (ast.Tuple, ast.Slice)):
+            return t.value.value.id, t.value.slice, t.slice
+        return None
+
+    def part_of(e, st8, env, flags):
+        """`U[:, a:b]` (optionally `.copy()`) of a recorded matrix -> (U, a, b)"""
+        if isinstance(e, ast.Call) and isinstance(e.func, ast.Attribute) and e.func.attr == "copy" and not e.args:
+            e = e.func.value
+        if isinstance(e, ast.Call) and src(e.func) in ("np.array", "np.copy", "np.ascontiguousarray") and len(e.args) == 1:
+            e = e.args[0]
+        tp = target_parts(e) if isinstance(e, ast.Subscript) else None
+        if tp is None or tp[0] not in st8.bufs or not full(tp[1]) or not isinstance(tp[2], ast.Slice):
+            return None
+        c = cols_of(tp[2], env, flags, st8.bufs[tp[0]])
+        if c is None:
+            return None
+        return tp[0], c.first, c.first + c.count
+
+    def inline(call, env):
+        """statements of a local function with its parameters replaced by the actual arguments (syntactic substitution: the
+        parameters are not assigned in its body), and the expression it returns"""
+        kind, params, body = env[call.func.id][:3]
+        if call.keywords or len(call.args) != len(params):
+            return None
+        stored = {n.id for x in body for n in ast.walk(x) if isinstance(n, ast.Name) and isinstance(n.ctx, ast.Store)}
+        if stored & set(params):
+            return None
+        sub = dict(zip(params, call.args))
+        stmts = [_Sub(sub).visit(_clone(x)) for x in body]
+        rets = [x for x in stmts for r in ast.walk(x) if isinstance(r, ast.Return)]
+        if any(isinstance(r, ast.Return) for x in stmts[:-1] for r in ast.walk(x)):
+            return None
+        ret = stmts[-1].value if stmts and isinstance(stmts[-1], ast.Return) else None
+        return [x for x in stmts if not isinstance(x, ast.Return)], ret
+
+    def walk(stmts, env, flags, st8):
+        """-> True when a `return` was reached"""
         for st in stmts:
-            if isinstance(st, ast.FunctionDef) and len(st.args.args) == 1:
+            if isinstance(st, ast.Expr) and isinstance(st.value, ast.Constant):
+                continue
+            if isinstance(st, ast.FunctionDef):
+                params = [a.arg for a in st.args.args]
+                body_ = [x for x in st.body if not (isinstance(x, ast.Expr) and isinstance(x.value, ast.Constant))]
                 rets = [r.value for r in ast.walk(st) if isinstance(r, ast.Return)]
-                stmts_ = [x for x in st.body if not (isinstance(x, ast.Expr) and isinstance(x.value, ast.Constant))]
-                straight = all(isinstance(x, ast.Assign) and len(x.targets) == 1 and isinstance(x.targets[0], ast.Name) for x in stmts_[:-1]) and \
-                    bool(stmts_) and isinstance(stmts_[-1], ast.Return)
-                env[st.name] = ("closure", st.args.args[0].arg, rets[0], dict(env), stmts_[:-1]) if len(rets) == 1 and straight else None
+                straight = all(isinstance(x, ast.Assign) and len(x.targets) == 1 and isinstance(x.targets[0], ast.Name) for x in body_[:-1]) and \
+                    bool(body_) and isinstance(body_[-1], ast.Return)
+                if len(params) == 1 and len(rets) == 1 and straight and not any(isinstance(c, ast.Call) and "find_span" in src(c.func)
+                                                                                for c in ast.walk(st)):
+                    env[st.name] = ("closure", params[0], rets[0], dict(env), body_[:-1])
+                else:
+                    env[st.name] = ("proc", params, body_)
+                continue
+            if isinstance(st, ast.Return):
+                if isinstance(st.value, ast.Name):
+                    st8.returned = st.value.id
+                else:
+                    p_ = part_of(st.value, st8, env, flags) if st.value is not None else None
+                    if p_ is not None:
+                        st8.parts["<returned>"] = p_
+                        st8.bufs["<returned>"] = p_[2] - p_[1]
+                        st8.returned = "<returned>"
+                    else:
+                        st8.notes.append(f"`{src(st)[:60]}` does not return a recorded matrix")
+                return True
+            # calls of local functions written back in place
+            call = st.value if isinstance(st, (ast.Expr, ast.Assign)) and isinstance(st.value, ast.Call) else None
+            if call is not None and isinstance(call.func, ast.Name) and isinstance(env.get(call.func.id), tuple) and \
+                    env[call.func.id][0] == "proc":
+                got = inline(call, env)
+                if got is None:
+                    st8.notes.append(f"`{src(st)[:60]}`: call of a local function not followed")
+                    continue
+                body_, ret = got
+                if walk(body_, env, flags, st8):
+                    return True
+                if isinstance(st, ast.Assign) and ret is not None:
+                    if walk([ast.copy_location(ast.Assign(targets=st.targets, value=ret, lineno=st.lineno), st)], env, flags, st8):
+                        return True
                 continue
             if isinstance(st, ast.Assign) and len(st.targets) == 1 and isinstance(st.targets[0], ast.Name):
                 name = st.targets[0].id
-                if isinstance(st.value, ast.Lambda) and len(st.value.args.args) == 1:
-                    env[name] = ("closure", st.value.args.args[0].arg, st.value.body, dict(env), [])
+                v = st.value
+                if isinstance(v, ast.Lambda) and len(v.args.args) == 1:
+                    env[name] = ("closure", v.args.args[0].arg, v.body, dict(env), [])
                     continue
-                if name in span_names or name in mat_names:
+                if isinstance(v, ast.Call) and src(v.func) in ("np.zeros", "np.empty") and v.args and isinstance(v.args[0], ast.Tuple) \
+                        and len(v.args[0].elts) == 2:
+                    try:
+                        w = ev(v.args[0].elts[1], env, flags)
+                        st8.bufs[name] = None if isinstance(w, _Cols) else w
+                    except Unknown:
+                        st8.bufs[name] = None
+                    continue
+                p_ = part_of(v, st8, env, flags)
+                if p_ is not None:
+                    st8.parts[name] = p_
+                    st8.bufs[name] = p_[2] - p_[1]
+                    continue
+                if isinstance(v, ast.Name) and v.id in st8.bufs:
+                    st8.bufs[name] = st8.bufs[v.id]
+                    st8.parts[name] = (v.id, sp.Integer(0), st8.bufs[v.id])
+                    continue
+                if name in span_fam:
                     continue
                 try:
-                    env[name] = ev(st.value, env, case)
+                    env[name] = ev(v, env, flags)
                 except Unknown:
                     env[name] = None
                 continue
             if isinstance(st, ast.AugAssign) and isinstance(st.target, ast.Name) and st.target.id in env:
                 try:
-                    env[st.target.id] = ev(ast.BinOp(left=st.target, op=st.op, right=st.value), env, case)
+                    env[st.target.id] = ev(ast.BinOp(left=st.target, op=st.op, right=st.value), env, flags)
                 except Unknown:
                     env[st.target.id] = None
                 continue
-            # stores into the matrix
-            tgt, kind, cols_e, node = None, None, None, st
+            # stores into a matrix
+            kind, tp, value = None, None, None
             if isinstance(st, ast.Expr) and isinstance(st.value, ast.Call) and src(st.value.func) in ("np.add.at", "numpy.add.at") and len(st.value.args) == 3 \
-                    and isinstance(st.value.args[0], ast.Name) and st.value.args[0].id in mat_names:
+                    and isinstance(st.value.args[0], ast.Name) and st.value.args[0].id in st8.bufs:
                 ix = st.value.args[1]
-                kind, cols_e = "add.at", (ix.elts[1] if isinstance(ix, ast.Tuple) and len(ix.elts) == 2 else None)
+                kind, value = "add.at", st.value.args[2]
+                tp = (st.value.args[0].id, ix.elts[0], ix.elts[1]) if isinstance(ix, ast.Tuple) and len(ix.elts) == 2 else (st.value.args[0].id, ix, None)
             elif isinstance(st, (ast.Assign, ast.AugAssign)):
                 t = st.targets[0] if isinstance(st, ast.Assign) else st.target
-                if isinstance(t, ast.Subscript) and isinstance(t.value, ast.Name) and t.value.id in mat_names:
-                    kind = "assign" if isinstance(st, ast.Assign) else "iadd"
-                    cols_e = t.slice.elts[1] if isinstance(t.slice, ast.Tuple) and len(t.slice.elts) == 2 else None
+                tp = target_parts(t)
+                if tp is not None and tp[0] in st8.bufs:
+                    kind, value = ("assign" if isinstance(st, ast.Assign) else "iadd"), st.value
+                else:
+                    tp = None
             if kind is not None:
-                try:
-                    cols = ev(cols_e, env, case) if cols_e is not None else None
-                    if not isinstance(cols, _Cols):
-                        cols = None
-                except Unknown:
-                    cols = None
-                fills.append((kind, cols, st))
+                buf, row, col = tp
+                # whole-matrix addition of a block of columns of another matrix onto a block of this one
+                if kind == "iadd" and isinstance(st.op, ast.Add) and full(row):
+                    src_part = part_of(value, st8, env, flags)
+                    c = cols_of(col, env, flags, st8.bufs[buf])
+                    if src_part is not None and c is not None and c.mod is None:
+                        st8.folds.append((buf, c.first, c.first + c.count, src_part[0], src_part[1], src_part[2], st))
+                        continue
+                cols = cols_of(col, env, flags, st8.bufs[buf])
+                raw = isinstance(value, ast.Name) and value.id in basis_arrays or \
+                    (isinstance(value, ast.Subscript) and isinstance(value.value, ast.Name) and value.value.id in basis_arrays)
+                st8.fills.append({"kind": kind, "cols": cols, "st": st, "buf": buf, "loop": st8.loops[-1] if st8.loops else None,
+                                  "raw": bool(raw), "whole": full(row)})
                 continue
             if isinstance(st, ast.If):
-                if per_name and src(_polarity(st.test)[0]) == per_name:
-                    take_body = case != _polarity(st.test)[1]
-                    walk(st.body if take_body else st.orelse, env, case, fills)
+                fv = flag_value(st.test, flags)
+                if fv is not None:
+                    if walk(st.body if fv else st.orelse, env, flags, st8):
+                        return True
                 else:
                     e1, e2 = dict(env), dict(env)
-                    walk(st.body, e1, case, fills)
-                    walk(st.orelse, e2, case, fills)
+                    r1 = walk(st.body, e1, flags, st8)
+                    r2 = walk(st.orelse, e2, flags, st8)
                     for k in set(e1) | set(e2):
                         a, b = e1.get(k), e2.get(k)
                         same = (isinstance(a, _Cols) and isinstance(b, _Cols) and repr(a) == repr(b)) or (not isinstance(a, _Cols) and a is b) \
                             or (isinstance(a, sp.Basic) and isinstance(b, sp.Basic) and a == b)
                         env[k] = a if same else None
+                    if r1 and r2:
+                        return True
+                    if r1 or r2:
+                        st8.notes.append(f"`if {src(st.test)[:40]}`: returns on one arm only")
                 continue
             if isinstance(st, (ast.For, ast.While, ast.With)):
-                walk(st.body, env, case, fills)
+                st8.loops.append(st)
+                try:
+                    if walk(st.body, env, flags, st8):
+                        st8.notes.append("return inside a loop")
+                finally:
+                    st8.loops.pop()
                 continue
+        return False
 
-    results = {}
-    for case in (True, False):
-        fills = []
-        walk(cm.body, {}, case, fills)
-        results[case] = fills
+    out = {}
+    for per in (True, False):
+        for fam in ("cu", "nu"):
+            flags = {}
+            if per_name:
+                flags[per_name] = per
+            if fam_name:
+                flags[fam_name] = fam == "cu"
+            st8 = State()
+            walk(cm.body, {}, flags, st8)
+            out[(per, fam)] = st8
+    out["symbols"] = {"first": first, "degree": degree, "nb": nb}
+    return out
+
+
+def collocation_verdicts(cm, k_cu):
+    """-> (columns verdict, diagnosis, node), (accumulation verdict, diagnosis, node) over the four kinds of space"""
+    res = collocation_analysis(cm, k_cu)
+    first, degree, nb = (res["symbols"][k] for k in ("first", "degree", "nb"))
     okj, badj, okf, badf = True, None, True, None
     nodej = nodef = cm
-    for case, what in ((True, "periodic"), (False, "clamped")):
-        fills = results[case]
-        if not fills:
-            okj = None if okj else okj
-            okf = None if okf else okf
+    whyj = whyf = None
+
+    def undec_j(why):
+        nonlocal okj, whyj
+        if okj:
+            okj, whyj = None, why
+
+    def undec_f(why):
+        nonlocal okf, whyf
+        if okf:
+            okf, whyf = None, why
+    for (per, fam) in ((True, "cu"), (True, "nu"), (False, "cu"), (False, "nu")):
+        st8 = res[(per, fam)]
+        what = ("periodic" if per else "clamped") + (" uniform cubic" if fam == "cu" else "")
+        sub = {degree: 3} if fam == "cu" else {}
+
+        def same(a, b):
+            return sp.expand((a - b).subs(sub)) == 0
+        R = st8.returned
+        if R is None or R not in st8.bufs:
+            cands = [b for b, w in st8.bufs.items() if w is not None and _same(w, nb)]
+            R = cands[0] if len(cands) == 1 and st8.returned is None else None
+        if R is None or not st8.fills:
+            undec_j(f"on a {what} space the matrix returned is not one the analysis has recorded the stores of" +
+                    (": " + "; ".join(st8.notes[:2]) if st8.notes else ""))
+            undec_f(whyj or "")
             continue
-        for kind, cols, st in fills:
-            if cols is None:
-                okj = None if okj else okj
-                okf = None if okf and kind != "add.at" and case else okf
+        # where the returned matrix takes its content from
+        source, folded = R, False
+        wR = st8.bufs.get(R)
+        if not any(f["buf"] == R for f in st8.fills) and R in st8.parts:
+            U, lo, hi = st8.parts[R]
+            wU = st8.bufs.get(U)
+            if wU is None or not _same(lo, 0):
+                undec_j(f"on a {what} space the matrix returned is a part of `{U}` that is not followed")
+                undec_f(whyj or "")
                 continue
-            probs = []
-            if not _same(cols.first, span - degree) or not _same(cols.count, degree + 1):
-                probs.append(f"on a {what} space row i gets the {cols.count} columns from {cols.first}: the non-vanishing basis functions at a "
-                             "point of span `span` are the degree+1 functions span-degree .. span")
-            if case and (cols.mod is None or not _same(cols.mod, nb)):
-                probs.append("on a periodic space the column indices are not taken modulo the number of basis functions: the functions "
-                             "that wrap around the period fall outside the matrix" if cols.mod is None else
-                             f"on a periodic space the column indices are taken modulo {cols.mod} instead of nb")
-            if not case and cols.mod is not None and not _same(cols.mod, nb) and not probs:
-                okj = None if okj else okj          # indices of a clamped space taken modulo something else: not decided
-            if probs and okj is not False:
-                okj, badj, nodej = False, "; ".join(probs), st
-            if case and cols.mod is not None and kind != "add.at" and okf is not False:
-                okf, nodef = False, st
-                badf = (f"`{src(st)[:80]}` " + ("assigns" if kind == "assign" else "adds with a buffered in-place operation (one write per "
-                                                 "distinct index)") +
-                        " the basis values at the wrapped columns: when a periodic space has as many cells as the "
-                        "degree the same column occurs twice among the degree+1 wrapped indices and only the last value is kept instead of "
-                        "the sum - the matrix is not the collocation matrix, interpolants do not reproduce their data")
-    chk.ob("H1-collocation-columns", nodej, "columns [span-degree, span] (mod nb when periodic)", okj,
+            source = U
+            if not same(hi, wU):
+                # the columns beyond the part kept must be added back onto its first columns
+                fl = [f for f in st8.folds if f[0] == R and f[3] == U]
+                if len(fl) == 1 and same(fl[0][1], 0) and same(fl[0][4], hi) and same(fl[0][5], wU) and same(fl[0][2] - fl[0][1], wU - hi):
+                    folded = True
+                else:
+                    undec_j(f"on a {what} space the matrix returned keeps the columns [0, {hi}) of `{U}` ({wU} columns); what happens to the "
+                            "others is not followed")
+                    undec_f(whyj or "")
+                    continue
+            wR = hi - lo
+        if wR is None or not same(wR, nb):
+            undec_j(f"on a {what} space the matrix returned has {wR} columns, not nb")
+            undec_f(whyj or "")
+            continue
+        fills = [f for f in st8.fills if f["buf"] == source]
+        others = [f for f in st8.fills if f["buf"] != source and f["buf"] == R]
+        if not fills or others:
+            undec_j(f"on a {what} space the stores into the matrix returned are not followed")
+            undec_f(whyj or "")
+            continue
+        for f in fills:
+            cols, kind, st = f["cols"], f["kind"], f["st"]
+            if cols is None or cols.first.atoms(sp.Symbol) - {first, degree, nb} or cols.count.atoms(sp.Symbol) - {first, degree, nb}:
+                undec_j(None)
+            else:
+                eff_mod = cols.mod if cols.mod is not None else (wR if folded else None)
+                probs = []
+                if not same(cols.first, first) or not same(cols.count, degree + 1):
+                    lo_ = sp.expand((cols.first - first).subs(sub))
+                    probs.append(f"on a {what} space row i gets the {sp.expand(cols.count.subs(sub))} columns that start {lo_} after the first "
+                                 f"non-vanishing basis function (`{src(st)[:70]}`; the span search of this family returns first + "
+                                 f"{'degree' if fam == 'nu' else k_cu}): the non-vanishing basis functions at a point are the degree+1 functions "
+                                 "first .. first+degree = span-degree .. span")
+                if per and (eff_mod is None or not same(eff_mod, nb)):
+                    probs.append("on a periodic space the column indices are not taken modulo the number of basis functions: the functions "
+                                 "that wrap around the period fall outside the matrix" if eff_mod is None else
+                                 f"on a periodic space the column indices are taken modulo {eff_mod} instead of nb")
+                if not per and cols.mod is not None and not same(cols.mod, nb) and not probs:
+                    undec_j(None)          # indices of a clamped space taken modulo something else: not decided
+                if probs and okj is not False:
+                    okj, badj, nodej = False, "; ".join(probs), st
+            if not per:
+                continue
+            # periodic: values that fall on the same (wrapped) column must add up
+            if kind == "add.at" or (folded and source != R):
+                continue
+            if cols is not None and cols.mod is not None:
+                if okf is not False:
+                    okf, nodef = False, st
+                    badf = (f"`{src(st)[:80]}` " + ("assigns" if kind == "assign" else "adds with a buffered in-place operation (one write per "
+                                                     "distinct index)") +
+                            " the basis values at the wrapped columns: when a periodic space has as many cells as the "
+                            "degree the same column occurs twice among the degree+1 wrapped indices and only the last value is kept instead of "
+                            "the sum - the matrix is not the collocation matrix, interpolants do not reproduce their data")
+                continue
+            if cols is None or not f["raw"]:
+                undec_f(None)
+                continue
+        if per and okf is not False:
+            # pigeonhole: degree+1 raw basis values stored into one row of nb columns without accumulation
+            groups = {}
+            for f in fills:
+                if f["kind"] != "add.at" and f["raw"] and f["cols"] is not None and not (folded and source != R) and f["cols"].mod is None:
+                    groups.setdefault(id(f["loop"]), []).append(f)
+            for g in groups.values():
+                total = sum((f["cols"].count for f in g), sp.Integer(0))
+                if same(total, degree + 1) and same(st8.bufs.get(g[0]["buf"]), nb):
+                    okf, nodef = False, g[0]["st"]
+                    badf = (" and ".join(f"`{src(f['st'])[:60]}`" for f in g) + (" assign" if len(g) > 1 else " assigns") +
+                            " the degree+1 basis values of a point into one row of the nb-column matrix of a periodic space (each column "
+                            "written at most once per statement, nothing is added): a periodic space may have as many cells as its degree "
+                            "(nb == degree), the degree+1 functions of a span then fall on degree columns, one column receives two values and "
+                            "keeps the last one instead of their sum - the matrix is not the collocation matrix (interpolants do not "
+                            "reproduce their data, quadrature weights do not sum to the domain length)")
+                    break
+    return (okj, badj or whyj, nodej), (okf, badf or whyf, nodef)
+
+
+def collocation_fill(chk, cm, rules=("H1-collocation-columns", "H1-collocation-accumulate")):
+    fq = f"{C1}.collocation_matrix"
+    from .C07 import uniform_span_analysis
+    try:
+        k_cu = uniform_span_analysis(chk.mod(U.CU).func("cu_find_span"))["K"]
+    except Exception:
+        k_cu = None
+    (okj, badj, nodej), (okf, badf, nodef) = collocation_verdicts(cm, k_cu)
+    chk.ob(rules[0], nodej, "columns [span-degree, span] (mod nb when periodic)", okj,
            "row i holds the degree+1 non-vanishing basis values at columns span-degree..span, wrapped modulo the number of basis "
            "functions on periodic spaces" if okj else (badj or "the column indices of a store into the matrix are not followed (index expression "
                                                        "outside ranges / slices / shifted and wrapped index arrays / closures over the span)"),
            file=U.INTERP, func=fq)
-    chk.ob("H1-collocation-accumulate", nodef, "np.add.at(mat, (i, js(span)), basis) on both arms", okf,
+    chk.ob(rules[1], nodef, "np.add.at(mat, (i, js(span)), basis) on both arms", okf,
            "values falling on the same (wrapped) column are added (unbuffered accumulation)" if okf else
            (badf or "a store into the matrix is not followed: cannot decide whether repeated wrapped columns accumulate"),
            file=U.INTERP, func=fq)
@@ -728,8 +1000,25 @@ def solves_1d(chk, imod):
         if isinstance(st, ast.Assign):
             t0 = st.targets[0]
             tgt = t0.elts[0] if isinstance(t0, ast.Tuple) and t0.elts else t0
-        full_store = isinstance(tgt, ast.Subscript) and src(tgt.value) in ("spl.coeffs", "spl._coeffs") and (
-            (isinstance(tgt.slice, ast.Slice) and tgt.slice.lower is None and tgt.slice.upper is None) or isinstance(tgt.slice, ast.Constant) and tgt.slice.value is Ellipsis)
+        cints = {}
+        for x in _flat(body):
+            if isinstance(x, ast.Assign) and len(x.targets) == 1 and isinstance(x.targets[0], ast.Name):
+                v_ = _int_attr(x.value, {**table, **cints})
+                if v_ is not None:
+                    cints[x.targets[0].id] = v_
+
+        def covers_all(t):
+            """a store target that is the whole coefficient array of a clamped spline (nbasis entries)"""
+            if not (isinstance(t, ast.Subscript) and src(t.value) in ("spl.coeffs", "spl._coeffs")):
+                return False
+            if isinstance(t.slice, ast.Constant) and t.slice.value is Ellipsis:
+                return True
+            if isinstance(t.slice, ast.Slice) and t.slice.step is None:
+                lo = sp.Integer(0) if t.slice.lower is None else _int_attr(t.slice.lower, {**table, **cints})
+                hi = n if t.slice.upper is None else _int_attr(t.slice.upper, {**table, **cints})
+                return lo is not None and hi is not None and _same(lo, 0) and _same(hi, n)
+            return False
+        full_store = covers_all(tgt)
         if wrong:
             bad = "; ".join(wrong) + ": the banded solve is given the factors in the wrong places"
         elif tr and not (isinstance(tr[0], ast.Constant) and tr[0].value in (0, False, "N")):
@@ -744,9 +1033,7 @@ def solves_1d(chk, imod):
                 bad = (f"`{src(st)[:70]}` binds the solution to the local name `{tgt.id}` and nothing is stored into the spline: its "
                        "coefficient array is not changed")
             elif not unknown and isinstance(rhs, ast.Name) and rhs.id == "ug" and not ow and len(later) == 1 and isinstance(later[0], ast.Assign) and \
-                    isinstance(later[0].value, ast.Name) and later[0].value.id == tgt.id and isinstance(later[0].targets[0], ast.Subscript) and \
-                    src(later[0].targets[0].value) in ("spl.coeffs", "spl._coeffs") and isinstance(later[0].targets[0].slice, ast.Slice) and \
-                    later[0].targets[0].slice.lower is None and later[0].targets[0].slice.upper is None:
+                    isinstance(later[0].value, ast.Name) and later[0].value.id == tgt.id and covers_all(later[0].targets[0]):
                 ok = True
         elif not unknown and isinstance(rhs, ast.Name) and rhs.id == "ug" and full_store and not ow:
             ok = True
@@ -876,6 +1163,7 @@ class Buf:
 
     def __init__(self, name, dims, extents, kind, from_data=False):
         self.name, self.dims, self.extents, self.from_data = name, tuple(dims), tuple(extents), from_data
+        self.initial = kind
         self.cells = {tuple(sp.Integer(0) for _ in dims): kind}
 
     def __repr__(self):
@@ -1239,8 +1527,61 @@ class Regions:
         return False
 
     def block(self, stmts):
-        for st in stmts:
+        for k, st in enumerate(stmts):
+            if isinstance(st, ast.If) and self.mentions_arrays(st) and self.if_(st, stmts[k + 1:]):
+                return
             self.stmt(st)
+
+    # ---- statements that run on some paths only: the blocks they write hold the new content on those paths and the old one on the others
+    def _effects(self, stmts):
+        return any(self.mentions_arrays(x) for x in stmts)
+
+    def if_(self, st, rest):
+        """-> True when the rest of the statement list was consumed (a guard that skips it)"""
+        jumps = [x for x in ast.walk(st) if isinstance(x, (ast.Break, ast.Return, ast.Continue))]
+        body, orelse = st.body, st.orelse
+        skip_body = bool(body) and isinstance(body[-1], ast.Continue) and not self._effects(body[:-1])
+        skip_else = bool(orelse) and isinstance(orelse[-1], ast.Continue) and not self._effects(orelse[:-1])
+        text = src(st.test)[:60]
+        if self.loop is not None and len(jumps) == 1 and (skip_body and not self._effects(orelse) or skip_else and not self._effects(body)):
+            # `if c: continue`: the rest of the iteration runs only when c is false
+            cond = f"`{text}` is {'true' if skip_body else 'false'}"
+            self.conditional((orelse if skip_body else body) + list(rest), cond, st)
+            return True
+        if jumps:
+            raise Undec(f"branch on `{text}` leaves the loop or the method on one path", st)
+        if self._effects(body) and self._effects(orelse):
+            raise Undec(f"branch on `{text}` is not decided by the periodicity of the two bases", st)
+        arm, cond = (body, f"`{text}` is false") if self._effects(body) else (orelse, f"`{text}` is true")
+        self.conditional(arm, cond, st)
+        return False
+
+    def conditional(self, stmts, skipped_when, node):
+        snaps = {}
+        for name, b in list(self.bufs.items()):
+            c = Buf("<before>" + name, b.dims, b.extents, "stale", b.from_data)
+            c.cells = dict(b.cells)
+            snaps[name] = c
+            self.bufs[c.name] = c          # registered so that new cuts split it like the live arrays
+        try:
+            self.block(stmts)
+        finally:
+            for c in snaps.values():
+                self.bufs.pop(c.name, None)
+        for s_ in self.scratch.values():
+            s_.valid = False
+        for name, b in list(self.bufs.items()):
+            c = snaps.get(name)          # an array first touched inside the guarded statements had its initial content before them
+            for key in list(b.cells):
+                new, old = b.cells[key], (self.cell_get(c, key) if c is not None else b.initial)
+                if new == old:
+                    continue
+                if old != "stale" or not self.mentions_arrays(node.test):
+                    # (a test of sizes / flags may be false only where the block is empty: not decided here)
+                    raise Undec(f"the statements guarded by the test at line {getattr(node, 'lineno', '?')} replace {KIND_TEXT.get(old, old)} by "
+                                f"{KIND_TEXT.get(new, new)} in `{name}` on some runs only (skipped when {skipped_when})", node)
+                b.cells[key] = (f"{KIND_TEXT['stale']} whenever {skipped_when} (the stores into `{name}` are then skipped; a spline that was "
+                                f"used before keeps the coefficients of the previous call there), {KIND_TEXT.get(new, new)} otherwise")
 
     def stmt(self, st):
         if isinstance(st, (ast.Assert, ast.Pass)):
@@ -1285,7 +1626,9 @@ class Regions:
         if isinstance(st, ast.If):
             if not self.mentions_arrays(st):
                 return
-            raise Undec(f"branch on `{src(st.test)[:50]}` is not decided by the periodicity of the two bases", st)
+            if self.if_(st, []):
+                return
+            return
         if self.mentions_arrays(st):
             raise Undec(f"`{src(st)[:60]}` is not modelled", st)
 
@@ -1713,7 +2056,12 @@ def two_d(chk, imod):
 
 def run(chk):
     chk.explanation = (
-        "Narrow structural claim: collocation matrix built from one basis with columns [span-degree, span] (mod nb when periodic); "
+        "Narrow structural claim: collocation matrix built from one basis; on each kind of space (periodic/clamped x uniform/general, "
+        "flags resolved, local functions written back at their calls) row i receives the degree+1 basis values at the columns that start "
+        "at the first non-vanishing function (general search: span-degree; uniform search: index-K with the K of cu_find_span), modulo nb "
+        "on periodic spaces or through an unwrapped matrix whose extra columns are added back, and values that meet on a column add up "
+        "(assignments of the degree+1 values into an nb-column row lose one when nb == degree); statements of the 2-D sweeps that run on "
+        "some data only leave the old content on the other runs; "
         "factorisation and solve selected as a pair by dtype equality, by this interpolator's own dtype, and fed with each other's "
         "factors; LAPACK band storage; periodic 1-D solves followed by the coefficient wrap; in 2-D, on each of the four combinations "
         "of periodic/clamped dimensions, a typestate analysis of index regions (blocks cut at 0, degree, nbasis, nbasis+degree; states "
